@@ -148,6 +148,31 @@ func Generate(schemaText string, opts Options) (src []byte, stage string, err er
 	return out.Bytes(), "", nil
 }
 
+// generateFromFile runs ReadFile + Generate on a schema file on disk (imports are resolved relative to it).
+func generateFromFile(file string, st bebop.GenerateSettings) (src []byte, stage string, err error) {
+	defer func() {
+		if r := recover(); r != nil {
+			err = fmt.Errorf("panic: %v", r)
+		}
+	}()
+	stage = "read"
+	fh, err := os.Open(file)
+	if err != nil {
+		return nil, stage, err
+	}
+	defer fh.Close()
+	bf, _, err := bebop.ReadFile(fh)
+	if err != nil {
+		return nil, stage, err
+	}
+	stage = "generate"
+	var out bytes.Buffer
+	if err := bf.Generate(&out, st); err != nil {
+		return nil, stage, err
+	}
+	return out.Bytes(), "", nil
+}
+
 // Build emits and compiles one package.
 func (b *Builder) Build(id, schemaText string, env *schema.Env, opts Options) *Package {
 	start := time.Now()
@@ -157,12 +182,48 @@ func (b *Builder) Build(id, schemaText string, env *schema.Env, opts Options) *P
 		p.Stage, p.BuildErr = stage, err.Error()
 		return p
 	}
-	src, stage, err := Generate(schemaText, opts)
-	if err != nil {
-		return fail(stage, err)
-	}
 	if err := os.MkdirAll(p.Dir, 0o755); err != nil {
 		return fail("emit", err)
+	}
+	var src []byte
+	if i := strings.Index(schemaText, schema.DepMarker); i >= 0 {
+		// two files, generated separately (the bebopc-go default): the imported one is its own package drvpkg/drvdep
+		mainText, depText := schemaText[:i], schemaText[i+len(schema.DepMarker)+1:]
+		depDir := filepath.Join(p.Dir, "drvdep")
+		if err := os.MkdirAll(depDir, 0o755); err != nil {
+			return fail("emit", err)
+		}
+		if err := os.WriteFile(filepath.Join(depDir, "dep.bop"), []byte(depText), 0o644); err != nil {
+			return fail("emit", err)
+		}
+		if err := os.WriteFile(filepath.Join(p.Dir, "schema.bop"), []byte(mainText), 0o644); err != nil {
+			return fail("emit", err)
+		}
+		depSettings := opts.Settings()
+		depSettings.PackageName = ""
+		depSettings.ImportGenerationMode = bebop.ImportGenerationModeSeparate
+		depSrc, stage, err := generateFromFile(filepath.Join(depDir, "dep.bop"), depSettings)
+		if err != nil {
+			return fail("dep-"+stage, err)
+		}
+		if err := os.WriteFile(filepath.Join(depDir, "gen.go"), depSrc, 0o644); err != nil {
+			return fail("emit", err)
+		}
+		mainSettings := opts.Settings()
+		mainSettings.ImportGenerationMode = bebop.ImportGenerationModeSeparate
+		var stage2 string
+		src, stage2, err = generateFromFile(filepath.Join(p.Dir, "schema.bop"), mainSettings)
+		if err != nil {
+			return fail(stage2, err)
+		}
+		schemaText = mainText
+	} else {
+		var stage string
+		var err error
+		src, stage, err = Generate(schemaText, opts)
+		if err != nil {
+			return fail(stage, err)
+		}
 	}
 	files := map[string][]byte{
 		"schema.bop":  []byte(schemaText),
